@@ -16,6 +16,7 @@ pub fn writers(k: &[u8], o: &[u8]) -> Vec<Vec<Vec<u8>>> {
         c(&[b"GETSET", k, b"new"]), c(&[b"MSET", o, b"1", k, b"new"]), c(&[b"APPEND", k, b"x"]), c(&[b"APPEND", k, b""]),
         c(&[b"SETRANGE", k, b"1", b"zz"]), c(&[b"INCR", k]), c(&[b"DECR", k]), c(&[b"INCRBY", k, b"5"]), c(&[b"DECRBY", k, b"0"]),
         c(&[b"DEL", k]), c(&[b"DEL", o, k]), c(&[b"EXPIRE", k, b"100"]), c(&[b"EXPIRE", k, b"0"]), c(&[b"PEXPIRE", k, b"100000"]),
+        c(&[b"PEXPIREAT", k, b"9999999999999"]), c(&[b"PEXPIREAT", k, b"0"]), c(&[b"PEXPIREAT", k, b"x"]),
         c(&[b"PERSIST", k]), c(&[b"RENAME", k, o]), c(&[b"RENAME", o, k]), c(&[b"RENAMENX", k, b"fresh"]), c(&[b"RENAMENX", o, k]),
         c(&[b"FLUSHDB"]), c(&[b"FLUSHALL"]),
         // stream writes (explicit IDs only: these may be queued inside MULTI, where an auto ID has no oracle)
